@@ -27,15 +27,16 @@ def confirm(src, name):
         print('%s: patch does not apply on /repo HEAD: %s' % (name, out[-300:]))
         return False
     sh('git apply %s' % patch, cwd=SCR)
-    rc, out = sh('cargo test --offline 2>&1 | grep -E "^test result|FAILED|^error" ', cwd=SCR)
+    feat = ' --features serde' if 'feature = "serde"' in open(os.path.join(src, 'demo.rs')).read() else ''
+    rc, out = sh('(cargo test --offline 2>&1; %s) | grep -E "^test result|FAILED|^error" ' % ('cargo test --offline --features serde 2>&1' if feat else 'true'), cwd=SCR)
     suite_ok = ('FAILED' not in out) and ('error' not in out) and ('test result: ok' in out)
     log.append('suite with patch: %s' % ('green' if suite_ok else 'NOT green: ' + out[-300:]))
     shutil.copy(os.path.join(src, 'demo.rs'), os.path.join(SCR, 'tests', 'demo_seed.rs'))
-    rc1, out1 = sh('cargo test --offline --test demo_seed 2>&1 | tail -5', cwd=SCR)
+    rc1, out1 = sh('cargo test --offline%s --test demo_seed 2>&1 | tail -5' % feat, cwd=SCR)
     demo_fails = 'FAILED' in out1 or 'failed' in out1
     log.append('demo with patch: %s' % ('fails' if demo_fails else 'passes (unexpected)'))
     sh('git apply -R %s' % patch, cwd=SCR)
-    rc2, out2 = sh('cargo test --offline --test demo_seed 2>&1 | tail -5', cwd=SCR)
+    rc2, out2 = sh('cargo test --offline%s --test demo_seed 2>&1 | tail -5' % feat, cwd=SCR)
     demo_passes = 'test result: ok' in out2
     log.append('demo without patch: %s' % ('passes' if demo_passes else 'fails (unexpected): ' + out2[-300:]))
     os.remove(os.path.join(SCR, 'tests', 'demo_seed.rs'))
